@@ -1277,6 +1277,12 @@ def replay(ctx, case):
         shutil.rmtree(ctx.tmp, ignore_errors=True)
         return not bad
     out = impl_case(case, str(ctx.tmp / "replay.cool"))
+    if case.get("expect") == "refused":
+        ok = out.get("result") != "ok"
+        print("a value outside the stored dtype's range:", case.get("offending"), "->", out.get("result"), "" if ok else str(out.get("pixels"))[:300])
+        import shutil
+        shutil.rmtree(ctx.tmp, ignore_errors=True)
+        return ok
     if not is_valid_input(case):
         print("malformed case: no property oracle applies; implementation result:", out.get("result"))
         return True
